@@ -17,7 +17,7 @@ PC == INSTANCE PrefixCode WITH HMaxSyms <- 256, HMaxCount <- 0, Strategy <- "any
 (* C01-KF1 .. KF5 are recorded as FIXED in known_findings.json (their repairs are in /repo): their    *)
 (* deviation actions stay below as documentation but are not consulted - a fixed finding that shows   *)
 (* again is a violation.                                                                              *)
-KnownIds == {"C01-KF6"}
+KnownIds == {}
 
 Wrong(e) == e.ok /\ (e.y.len # enc[e.b].x.len \/ e.y.h # enc[e.b].x.h)
 
@@ -117,6 +117,17 @@ G6b(e, subj, mech) == /\ FseLike(subj)
                       /\ PayloadSyms(mech, e.b) \subseteq mech.slots
 KF6(e, subj, mech, mech2) == UNCHANGED csvars /\ mech2 = mech
 
+(* C01-KF7: FseEncoder::compress_parallel cuts the payload into len / block_size blocks without a  *)
+(* limit; FseDecoder::decompress recognises a block container only for 2..64 blocks and otherwise    *)
+(* parses the container as one stream: an error or other bytes.  Trigger: block-parallel subject,    *)
+(* payload longer than 64 blocks (fse_par: 16 KiB blocks, fse_par1k: 1 KiB blocks).                  *)
+BlockOf(subj) == IF subj.variant = "par" THEN 16384 ELSE 1024
+G7(e, subj, mech) == /\ subj.fam = "fse" /\ subj.variant \in {"par", "par1k"}
+                     /\ e.op = "decode" /\ Matching(e.c, e.b, e.n)
+                     /\ (~e.ok \/ Wrong(e))
+                     /\ enc[e.b].x.len > 64 * BlockOf(subj)
+KF7(e, subj, mech, mech2) == UNCHANGED csvars /\ mech2 = mech
+
 (* guard (state predicate) and action of each deviation; mech2 is the next value of the trace   *)
 (* specification's mech variable                                                                 *)
 DevApplies(id, e, subj, mech) ==
@@ -126,6 +137,7 @@ DevApplies(id, e, subj, mech) ==
     \/ id = "C01-KF4" /\ G4(e, subj, mech)
     \/ id = "C01-KF5" /\ G5(e, subj, mech)
     \/ id = "C01-KF6" /\ (G6a(e, subj, mech) \/ G6b(e, subj, mech))
+    \/ id = "C01-KF7" /\ G7(e, subj, mech)
 KnownDeviation(id, e, subj, mech, mech2) ==
     \/ id = "C01-KF1" /\ KF1(e, subj, mech, mech2)
     \/ id = "C01-KF2" /\ KF2(e, subj, mech, mech2)
@@ -133,4 +145,5 @@ KnownDeviation(id, e, subj, mech, mech2) ==
     \/ id = "C01-KF4" /\ KF4(e, subj, mech, mech2)
     \/ id = "C01-KF5" /\ KF5(e, subj, mech, mech2)
     \/ id = "C01-KF6" /\ KF6(e, subj, mech, mech2)
+    \/ id = "C01-KF7" /\ KF7(e, subj, mech, mech2)
 =============================================================================
